@@ -127,6 +127,8 @@ PLAN["C01"] = {
              "gadget and the full circuit in gnark's test engine must accept IFF R-ins (and start < 2^32). E2: the system returned by BuildR1CSInsertion at (1,1),(3,2),(2,3) "
              "(thorough + (32,2),(10,4),(31,1),(5,5)) solved with a drawn prover strategy for every bit-decomposition hint (honest, v+k*r, flipped bit, non-boolean same-sum digits, "
              "bits of another value, zeros, ones; optionally only for one chosen value/width): accept => R-ins; honest: accept <=> R-ins; differential E1 vs E2-honest. "
+             "TinyE1 (exhaustive): every assignment (start, pre, id, sibling, post) of the InsertionProof gadget at depth 1/batch 1 over GF(5), GF(7) (thorough + GF(11), GF(13), and all 5^7 assignments "
+             "at depth 1/batch 2 over GF(5)) in the test engine against R-ins over the generic tiny-field Poseidon. "
              "Non-trivial = every case except a valid batch at start 0 on the empty tree; distinct = SHA-1 of the canonical case."),
     "assumptions": A_COMMON + ["structural scan of the compiled system: every internal wire other than a hint output is defined on the O side of one constraint, so (inputs, hint outputs) is the whole freedom of a dishonest prover"],
     "technique": "model-based property testing (history state machine + reference relation) with adversarial hint functions on the compiled R1CS",
@@ -134,9 +136,11 @@ PLAN["C01"] = {
                    "dishonest-prover strategies; both directions of the iff are asserted for the honest prover, soundness for adversarial strategies."),
     "level_note": "dishonest-prover coverage only at the compiled dimensions; other dimensions honest engine only; gnark's compiler/solver trusted as deployed semantics",
     "quick": [{"test": "TestC01_E1", "checks": 120, "shards": 6, "timeout": 900},
-              {"test": "TestC01_E2", "checks": 250, "shards": 4, "timeout": 900}],
+              {"test": "TestC01_E2", "checks": 250, "shards": 4, "timeout": 900},
+              {"test": "TestC01_TinyE1", "rapid": False, "shards": 2, "timeout": 600}],
     "thorough": [{"test": "TestC01_E1", "checks": 1200, "shards": 12, "timeout": 3000},
-                 {"test": "TestC01_E2", "checks": 1500, "shards": 8, "timeout": 3000}],
+                 {"test": "TestC01_E2", "checks": 1500, "shards": 8, "timeout": 3000},
+                 {"test": "TestC01_TinyE1", "rapid": False, "shards": 16, "timeout": 3000}],
 }
 
 PLAN["C02"] = {
@@ -165,4 +169,24 @@ PLAN["C02"] = {
                  {"test": "TestC02_TinyE1", "rapid": False, "shards": 16, "timeout": 3000},
                  {"test": "TestC02_TinyE2", "rapid": False, "shards": 16, "timeout": 3000},
                  {"test": "TestC02_DepthGuard", "rapid": False, "timeout": 300}],
+}
+
+PLAN["C03"] = {
+    "level": "exploration",
+    "rule": ("rapid: relation-valid insertion/deletion witnesses on generated histories, with commitments biased to encoding edges (0,1,r-1,2^k, short byte lengths) and - in a third of the insertion "
+             "cases - the last commitment searched so that the post-root has a leading zero byte; deletion batches mix genuine, dependent, already-empty and padding slots (indices up to 2^32-1 at depth 31); "
+             "batch sizes giving 1, 2 and 3 Keccak blocks. Presented public input: HONEST (Keccak of the reference packing mod r: must be accepted), PUBLIC+-1, OTHER-BATCH (hash of the packing with exactly one "
+             "field changed), SWAP-WITNESS (hash of a different valid batch / of the same deletion slots in another order), and on the compiled systems FORGE256 (for a drawn packed 256-bit field v and k with "
+             "v+k*r < 2^256: public input = Keccak of the packing containing v+k*r, while the prover's bit-decomposition hint answers bits(v+k*r) for exactly that value) and FORGE32 (non-boolean or other-value "
+             "answers for a 32-bit field, public input = hash of the packing with the other value). Oracle: accept => public input == Keccak(reference packing of the witness values) mod r; honest and canonical => accept; "
+             "compiled systems have exactly one public input. E1: test engine, depths 1..32, batches up to 20; E2: insertion (3,2),(2,3), deletion (3,2),(2,4) (thorough + (10,4),(32,1) / (10,3),(1,18),(31,1)). "
+             "Non-trivial = any non-honest kind, or an honest case with a packed value shorter than 32 bytes or a multi-block hash input; distinct = SHA-1 of the canonical case."),
+    "assumptions": A_COMMON,
+    "technique": "metamorphic/differential property testing against the on-chain packing (x/crypto Keccak) with forged-decomposition hint strategies",
+    "level_text": "Exploration: soundness of the hash binding is attacked with every alternative decomposition v+k*r that fits 256 bits at drawn fields, on the compiled systems; completeness on the honest path at all depths.",
+    "level_note": "forgeries are attempted through the bit-decomposition hints (the only prover-chosen values besides inputs, by the structural scan); compiled dimensions only",
+    "quick": [{"test": "TestC03_E1", "checks": 150, "shards": 4, "timeout": 900},
+              {"test": "TestC03_E2", "checks": 250, "shards": 4, "timeout": 900}],
+    "thorough": [{"test": "TestC03_E1", "checks": 1200, "shards": 8, "timeout": 3000},
+                 {"test": "TestC03_E2", "checks": 1500, "shards": 8, "timeout": 3000}],
 }
